@@ -65,7 +65,12 @@ impl Parse for Input {
             disallow_token(auto_token)?;
             Ok(Input::Mod(parse_mod(attrs, vis, input)?))
         } else {
-            let fn_sig: syn::Signature = input.parse()?;
+            disallow_token(auto_token)?;
+            let mut fn_sig: syn::Signature = input.parse()?;
+            if fn_sig.unsafety.is_none() {
+                // a leading `unsafe` was consumed above
+                fn_sig.unsafety = unsafety;
+            }
             let fn_body = input.parse()?;
 
             Ok(Input::Fn(InputFn {
